@@ -36,6 +36,14 @@ def gen(rng, tier):
     for _ in range(15 if tier == 'quick' else 150):
         d = S.rand_curve(rng, rational=False, maxp=4, allow_range=False)
         out.append(Case('length', None, dict(shape=d, n=rng.randint(2, 30))))
+    # the SAMPLED points (default start / stop of evaluate()) of clamped and unclamped shapes stay in the
+    # hull of the whole net (all coordinate directions + random ones) and inside the reported box
+    for _ in range(16 if tier == 'quick' else 160):
+        cl = rng.random() < .4
+        d = S.rand_curve(rng, maxp=4, clamped=cl, allow_range=False) if rng.random() < .6 else S.rand_surface(rng, maxp=3, max_interior=2, clamped=cl, allow_range=False)
+        sizes = [rng.randint(2, 7) for _ in S.dirs(d)]
+        dirs = [[F(rng.randint(-5, 5)) for _ in range(d['dim'])] for _ in range(4)]
+        out.append(Case('sampled-hull', None, dict(shape=d, sizes=sizes, dirs=dirs)))
     return out
 
 
@@ -121,6 +129,26 @@ def oracle(c):
         hi = [max(pt[i] for pt in cart) for i in range(d['dim'])]
         if list(bb[0]) != lo or list(bb[1]) != hi:
             return "bbox is not the coordinatewise min / max of the control points"
+        return None
+    if c.kind == 'sampled-hull':
+        if d['kind'] == 'curve':
+            o.sample_size = c.data['sizes'][0]
+        else:
+            o.sample_size_u, o.sample_size_v = c.data['sizes']
+        cart = [[x / cp[-1] for x in cp[:-1]] for cp in d['P']] if d['rat'] else d['P']
+        dim = len(cart[0])
+        fun = [[F(1) if i == j else F(0) for i in range(dim)] for j in range(dim)] + c.data['dirs']
+        pts = [[x.q if hasattr(x, 'q') else F(x) for x in pt] for pt in o.evalpts]
+        bb = o.bbox
+        for k_, pt in enumerate(pts):
+            for a in fun:
+                vals = [sum(ai * ci for ai, ci in zip(a, cp)) for cp in cart]
+                v = sum(ai * ci for ai, ci in zip(a, pt))
+                if v < min(vals) or v > max(vals):
+                    return "sampled point %d of %d leaves the convex hull of the control net (direction %s)" % (k_, len(pts), show_list(a))
+            for j in range(dim):
+                if pt[j] < F(fr(bb[0][j])) or pt[j] > F(fr(bb[1][j])):
+                    return "sampled point %d lies outside the reported bounding box" % k_
         return None
     if c.kind == 'length':
         from geomdl import operations
